@@ -78,5 +78,26 @@ grid!(c13_send_config_grid_rec32, 32);
 grid!(c13_send_config_grid_rec96, 96);
 grid!(c13_send_config_grid_rec4097, 4097);
 
+/// C13 ("a channel closes exactly when its declared record count has been sent"): the predicate that
+/// `GatewaySender::send` uses to close the channel: `is_last(r)` <=> the count is specified as n and r = n - 1;
+/// never for unspecified / indeterminate counts; a zero count cannot be constructed.
+#[kani::proof]
+fn c13_total_records_is_last() {
+    let n: usize = kani::any();
+    let r: u32 = kani::any();
+    kani::cover!(n > 0 && r as usize == n - 1);
+    kani::cover!(n == 0);
+    match TotalRecords::specified(n) {
+        Ok(t) => {
+            assert!(n > 0 && t.count() == Some(n) && t.is_specified() && !t.is_indeterminate());
+            assert!(t.is_last(RecordId::from(r)) == (r as usize == n - 1));
+        }
+        Err(_) => assert!(n == 0),
+    }
+    assert!(!TotalRecords::Unspecified.is_last(RecordId::from(r)) && !TotalRecords::Indeterminate.is_last(RecordId::from(r)));
+    assert!(!TotalRecords::Unspecified.is_specified() && TotalRecords::Indeterminate.is_specified());
+    assert!(TotalRecords::Unspecified.count().is_none() && TotalRecords::Indeterminate.count().is_none());
+}
+
 #[cfg(test)]
 include!(concat!(env!("IPA_VERIF_DIR"), "/.build/playback/send.rs"));
